@@ -79,7 +79,7 @@ def run(prog, rep):
     rep.rule('R1.3', 'XML adapter: the load side accepts an element without children as the empty value of the requested kind '
                      '(string, array, object) - the shape the save side emits for it', floor=5)
     rep.rule('R1.4', 'MsgPack: every first byte a write overload can emit has an accepting path in the read method of the same type, both readers', floor=150)
-    rep.rule('R1.5', 'JSON adapter: Accept() results are consumed; ParseStream over AutoUTFInputStream names AutoUTF as source encoding', floor=5)
+    rep.rule('R1.5', 'JSON adapter: Accept() results are consumed; ParseStream over AutoUTFInputStream names AutoUTF as source encoding; writers use the target encoding of their stream', floor=9)
 
     # ---------------------------------------------------------------- R1.1
     for f in sorted(prog.funcs.values(), key=lambda g: g.id):
@@ -277,7 +277,7 @@ def run(prog, rep):
 
     # ---------------------------------------------------------------- R1.5
     from rules import json_render
-    json_render.check(prog, rep, 'R1.5')
+    json_render.check(prog, rep, 'R1.5', want=('accept', 'parsestream', 'writers'))
 
     # ---------------------------------------------------------------- R1.6 (CSV stream: rows are neither lost nor invented at chunk boundaries)
     from rules import c09
